@@ -133,7 +133,14 @@ def setTypeNamespaces (t : CType) (nss : List String) : CType :=
   | .simple ⟨_, n, is⟩ q b => .simple ⟨nss, n, is⟩ q b
   | .templ _ n ps q => .templ nss n ps q
 
-/-- first-level rewriting of template arguments: `….instantiations[idx].name = instantiations[k]` -/
+/-- splice an instantiation into a template argument: namespaces appended, name and
+    instantiations replaced (a templated argument keeps its own parameters) -/
+def spliceInst (t : CType) (i : Typename) : CType :=
+  match t with
+  | .simple ⟨nss, _, _⟩ q b => .simple ⟨nss ++ i.namespaces, i.name, i.insts⟩ q b
+  | .templ nss _ ps q => .templ (nss ++ i.namespaces) i.name ps q
+
+/-- first-level rewriting of template arguments (`instantiate_type`, first loop) -/
 def rewriteParams (tns : List String) (insts : List Typename) : List CType → Except Err (List CType)
   | [] => .ok []
   | p :: ps =>
@@ -143,7 +150,7 @@ def rewriteParams (tns : List String) (insts : List Typename) : List CType → E
       match indexOf? p.typename.name tns with
       | some k =>
         match insts[k]? with
-        | some i => .ok (setTypeName p (tnToCpp i) :: ps')
+        | some i => .ok (spliceInst p i :: ps')
         | none => .error .validation
       | none => .ok (p :: ps')
 
@@ -272,6 +279,8 @@ structure IClass where
   enums : List EnumDecl
   methods : List IMethod
   dunders : List (String × List Arg)
+  /-- names of the enums declared in the namespace of the class template (`class_.parent.content`) -/
+  nsEnums : List String := []
 deriving Repr, BEq, Inhabited
 
 structure IFunc where
@@ -389,7 +398,8 @@ def instMethod (cx : ClsCtx) (isStatic : Bool) (tmpl : Option Template) (ret : R
     pure (⟨instName name mi, name, tmpl, mi, r, as, isConst, isStatic⟩ : IMethod)) (memberInsts tmpl)
 
 /-- `InstantiatedClass.__init__` -/
-def instClass (c : ClassDecl) (nsPath : List String) (insts : List Typename) (newName : String) : Except Err IClass := do
+def instClass (c : ClassDecl) (nsPath : List String) (insts : List Typename) (newName : String)
+    (nsEnums : List String := []) : Except Err IClass := do
   let tns := tmplNames c.tmpl
   if c.tmpl.isSome && tns.length != insts.length then throw .validation
   let name := if newName.isEmpty then instName c.name insts else newName
@@ -424,7 +434,7 @@ def instClass (c : ClassDecl) (nsPath : List String) (insts : List Typename) (ne
     | .method t r n as k => instMethod cx false t r n as k
     | _ => pure []) c.members
   let dunders := c.members.filterMap fun m => match m with | .dunder n as => some (n, as) | _ => none
-  pure ⟨name, c.name, c.tmpl.isSome, insts, c.isVirtual, nsPath, parent, ctors, statics, props, ops, enums, methods, dunders⟩
+  pure ⟨name, c.name, c.tmpl.isSome, insts, c.isVirtual, nsPath, parent, ctors, statics, props, ops, enums, methods, dunders, nsEnums⟩
 
 /-- `InstantiatedGlobalFunction.__init__` -/
 def instFunc (tmpl : Option Template) (ret : RetType) (name : String) (args : List Arg) (nsPath : List String)
@@ -457,18 +467,23 @@ end
 
 /-- what `find_class_or_function` can return -/
 inductive Found where
-  | cls (c : ClassDecl) (nsPath : List String)
+  | cls (c : ClassDecl) (nsPath : List String) (nsEnums : List String)
   | func (tmpl : Option Template) (ret : RetType) (name : String) (args : List Arg) (nsPath : List String)
   | fwd (isVirtual : Bool) (tn : Typename) (nsPath : List String)
   | instantiated          -- an already instantiated class/function/declaration (not supported by the model)
 
-/-- candidates named `name` directly inside one namespace node -/
-def candidatesM (name : String) (path : List String) : List MDecl → List Found
+def enumNamesM : List MDecl → List String
   | [] => []
-  | .leaf (.cls c) :: r => (if c.name == name then [Found.cls c path] else []) ++ candidatesM name path r
-  | .leaf (.func t rt n as) :: r => (if n == name then [Found.func t rt n as path] else []) ++ candidatesM name path r
-  | .leaf (.fwd v tn _) :: r => (if tn.name == name then [Found.fwd v tn path] else []) ++ candidatesM name path r
-  | _ :: r => candidatesM name path r
+  | .leaf (.enum e) :: r => e.name :: enumNamesM r
+  | _ :: r => enumNamesM r
+
+/-- candidates named `name` directly inside one namespace node (`es` = enum names of that node) -/
+def candidatesM (name : String) (path : List String) (es : List String) : List MDecl → List Found
+  | [] => []
+  | .leaf (.cls c) :: r => (if c.name == name then [Found.cls c path es] else []) ++ candidatesM name path es r
+  | .leaf (.func t rt n as) :: r => (if n == name then [Found.func t rt n as path] else []) ++ candidatesM name path es r
+  | .leaf (.fwd v tn _) :: r => (if tn.name == name then [Found.fwd v tn path] else []) ++ candidatesM name path es r
+  | _ :: r => candidatesM name path es r
 
 def candidatesI (name : String) (path : List String) : List IDecl → List Found
   | [] => []
@@ -493,7 +508,7 @@ end
 mutual
   def findM (nss : List String) (name : String) (path : List String) (content : List MDecl) : List Found :=
     match nss with
-    | [] => candidatesM name path content
+    | [] => candidatesM name path (enumNamesM content) content
     | n :: rest => findMs n rest name path content
   def findMs (n : String) (rest : List String) (name : String) (path : List String) : List MDecl → List Found
     | [] => []
@@ -528,12 +543,12 @@ def contentAtPath : List MDecl → List Nat → List MDecl
     | _ => []
 
 /-- one non-namespace, non-typedef element -/
-def instLeaf (d : Decl) (nsPath : List String) : Except Err (List IDecl) :=
+def instLeaf (d : Decl) (nsPath : List String) (es : List String) : Except Err (List IDecl) :=
   match d with
   | .cls c =>
     match c.tmpl with
-    | none => do let ic ← instClass c nsPath [] ""; pure [.cls ic]
-    | some ps => mapM' (fun is => do let ic ← instClass c nsPath is ""; pure (IDecl.cls ic)) (product (ps.map (·.insts)))
+    | none => do let ic ← instClass c nsPath [] "" es; pure [.cls ic]
+    | some ps => mapM' (fun is => do let ic ← instClass c nsPath is "" es; pure (IDecl.cls ic)) (product (ps.map (·.insts)))
   | .func t r n as =>
     match t with
     | none => do let f ← instFunc none r n as nsPath [] ""; pure [.func f]
@@ -547,7 +562,7 @@ def instLeaf (d : Decl) (nsPath : List String) : Except Err (List IDecl) :=
 
 def instTypedef (root : List MDecl) (tn : Typename) (newName : String) : Except Err (List IDecl) := do
   match ← findClassOrFunction root tn with
-  | .cls c p => do let ic ← instClass c p tn.insts newName; pure [.cls ic]
+  | .cls c p es => do let ic ← instClass c p tn.insts newName es; pure [.cls ic]
   | .func t r n as p => do let f ← instFunc t r n as p tn.insts newName; pure [.func f]
   | .fwd v ftn p =>
     pure [.decl ⟨if newName.isEmpty then instName ftn.name tn.insts else newName, ftn.name, tn.insts, v, p⟩]
@@ -567,7 +582,7 @@ def instNs : Nat → List MDecl → List Nat → List String → Except Err (Lis
         let t ← instTypedef root tn nn
         loop root (i + 1) r acc (tds ++ t)
       | .leaf d :: r => do
-        let x ← instLeaf d nsPath
+        let x ← instLeaf d nsPath (enumNamesM content)
         loop root (i + 1) r (acc ++ x) tds
       | .ns n _ :: r => do
         let (root', c) ← instNs fuel root (ip ++ [i]) (nsPath ++ [n])
